@@ -2075,7 +2075,15 @@ pub fn conc_profile(prop: &str) -> Option<ConcCfg> {
 			cfg.world.p_allow_dup = 50;
 			Some(cfg)
 		}
-		"C02" | "C05" | "C04" | "C03" | "C08" => Some(ConcCfg::default()),
+		"C02" => {
+			// other threads also format the locks: a non-acquiring operation that
+			// lets go of somebody's hold ends that thread's exclusion
+			let mut cfg = ConcCfg::default();
+			cfg.p_debug_step = 50;
+			cfg.p_debug_in_body = 30;
+			Some(cfg)
+		}
+		"C05" | "C04" | "C03" | "C08" => Some(ConcCfg::default()),
 		"C10" => {
 			let mut cfg = ConcCfg::default();
 			cfg.world.p_wrap = 170;
